@@ -98,6 +98,17 @@ def generate(L):
     rest = re.sub(r'fields\[2\]\s*==\s*"HEAD"|fields\[2\]\.starts_with\("refs/heads/"\)|fields\.len\(\) >= 3|[\s()&|]', "", flt)
     if rest:
         raise L.GenError(f"{rel}: reference-name filter has a test the model does not know: {rest[:80]}")
+    # maybe_handle_pull_post_rewrite: the working log is renamed after the old == new test and before the noop early return
+    pp = L.find_fn(src, "maybe_handle_pull_post_rewrite", rel)
+    i_same = pp.find("if old_head == new_head")
+    i_noop = pp.find("let is_noop_rebase")
+    i_evt = pp.find("RewriteLogEvent::rebase_complete")
+    if min(i_same, i_noop, i_evt) < 0 or not (i_same < i_noop < i_evt):
+        raise L.GenError(f"{rel}: maybe_handle_pull_post_rewrite: old==new test / noop test / rebase_complete not found in this order")
+    i_rn = pp.find("rename_working_log(&old_head, &new_head)")
+    if pp.count("rename_working_log(") > 1:
+        raise L.GenError(f"{rel}: maybe_handle_pull_post_rewrite renames the working log more than once")
+    pull_rename_first = i_same < i_rn < i_noop
     m = re.search(r'pub const ENV_SKIP_MANAGED_HOOKS\s*:\s*&str\s*=\s*' + L.STR_LIT, src)
     if not m:
         raise L.GenError(f"{rel}: ENV_SKIP_MANAGED_HOOKS not found")
@@ -181,6 +192,7 @@ def generate(L):
         "Definition env_skip_managed_hooks : list N := " + L.coq_str(L.unescape(env_skip)) + ".",
         "Definition wrapper_child_sets_skip : bool := true.",
         "Definition skip_guards_managed_part : bool := true.",
+        "Definition pull_renames_before_early_exits : bool := " + L.coq_bool(pull_rename_first) + ".",
         "Definition reftx_lookup_on_HEAD : bool := " + L.coq_bool(on_head) + ".",
         "Definition reftx_lookup_on_refs_heads : bool := " + L.coq_bool(on_heads) + ".",
         "Definition rewrite_stash_default_debug : bool := " + m.group(1) + ".",
